@@ -56,7 +56,7 @@ func keysAll() []keyInfo {
 		for _, r := range []struct {
 			n string
 			k *rsa.PrivateKey
-		}{{"rsa2048", ks.RSA2048}, {"rsa2048b", ks.RSA2048b}, {"rsa3072", ks.RSA3072}} {
+		}{{"rsa2048", ks.RSA2048}, {"rsa2048b", ks.RSA2048b}, {"rsa3072", ks.RSA3072}, {"rsa2047", ks.RSA2047}, {"rsa2055", ks.RSA2055}} {
 			add(r.n, "rsa", "", r.k, &r.k.PublicKey)
 		}
 		for _, e := range []struct {
